@@ -310,6 +310,54 @@ func c11Exec(schema *ast.Schema, op *c11Op) (res string) {
 		return b.String()
 	case "format":
 		return fmtSchema(schema, nil)
+	case "schema-argmaps":
+		// the arguments of the directives applied IN the schema (servers read @deprecated reasons, auth roles, ... this way)
+		var b strings.Builder
+		dirs := func(where string, ds ast.DirectiveList) {
+			for _, d := range ds {
+				if d.Definition == nil {
+					continue
+				}
+				func() {
+					defer func() {
+						if v := recover(); v != nil {
+							b.WriteString(where + "@" + d.Name + " PANIC " + core.PanicClass(fmt.Sprint(v)) + ";")
+						}
+					}()
+					b.WriteString(where + "@" + d.Name + "(" + showMap(d.ArgumentMap(nil)) + ");")
+				}()
+			}
+		}
+		var names []string
+		for n := range schema.Types {
+			names = append(names, n)
+		}
+		sort.Strings(names)
+		dirs("schema", schema.SchemaDirectives)
+		for _, n := range names {
+			d := schema.Types[n]
+			dirs(n, d.Directives)
+			for _, f := range d.Fields {
+				dirs(n+"."+f.Name, f.Directives)
+				for _, a := range f.Arguments {
+					dirs(n+"."+f.Name+"("+a.Name+")", a.Directives)
+				}
+			}
+			for _, ev := range d.EnumValues {
+				dirs(n+"."+ev.Name, ev.Directives)
+			}
+		}
+		var dn []string
+		for n := range schema.Directives {
+			dn = append(dn, n)
+		}
+		sort.Strings(dn)
+		for _, n := range dn {
+			for _, a := range schema.Directives[n].Arguments {
+				dirs("@"+n+"("+a.Name+")", a.Directives)
+			}
+		}
+		return b.String()
 	case "lookups":
 		var b strings.Builder
 		var names []string
@@ -372,10 +420,13 @@ func c11BuildOps(r *core.Rand, mg *tsys.Merged, n int) []*c11Op {
 			op.kind = "argmap"
 		case k < 11:
 			op.kind = "format"
+			if r.Bool() {
+				op.kind = "schema-argmaps"
+			}
 		default:
 			op.kind = "lookups"
 		}
-		if op.kind == "format" || op.kind == "lookups" {
+		if op.kind == "format" || op.kind == "lookups" || op.kind == "schema-argmaps" {
 			ops = append(ops, op)
 			continue
 		}
